@@ -104,6 +104,11 @@ def gen(cls, idx, rng, tier):
             oy = rng.randrange(0, 256, size)
             cs = rcores(rng)
             ops.append(("rect", ox, oy, size, size, cs))
+            if rng.random() < .5:
+                # other cores on a few chips inside the full block
+                for _ in range(rng.randint(1, 6)):
+                    ops.append(("pt", ox + rng.randrange(size),
+                                oy + rng.randrange(size), rcores(rng, 1, 2)))
             if cls != "aligned":
                 for _ in range(rng.randint(1, 4)):
                     ops.append(("hole", ox + rng.randrange(size),
